@@ -22,7 +22,7 @@ use rand::{rngs::StdRng, seq::SliceRandom, Rng, SeedableRng};
 use serde::Deserialize;
 use serde_json::{json, Value};
 use shredh::{
-    worldx::{panic_why, CallSpec, Driver, GEntry, SendEntry, ShapeM, NCONC},
+    worldx::{on_pool, panic_why, CallSpec, Driver, GEntry, SendEntry, ShapeM, NCONC},
     Args,
 };
 
@@ -92,6 +92,8 @@ fn replay(a: &Args) {
     let mut w = BufWriter::new(File::create(out).unwrap());
     let rd = BufReader::new(File::open(inp).unwrap());
     let (mut behaviours, mut runs, mut calls, mut agree, mut disagree, mut kept, mut blocks) = (0usize, 0usize, 0usize, 0usize, 0usize, 0usize, 0usize);
+    let (mut pool_runs, mut unwinding_calls) = (0usize, 0usize);
+    let contexts = !a.flag("plain");
     let mut samples: Vec<Value> = Vec::new();
     let mut bad_samples: Vec<Value> = Vec::new();
     let mut ops_seen = std::collections::BTreeMap::<String, usize>::new();
@@ -109,28 +111,50 @@ fn replay(a: &Args) {
         behaviours += 1;
         for v in 0..variants {
             let (tys, dyns) = variant(&mut rng, nt, nd, v == 0);
-            let mut d = Driver::new(tys.clone(), dyns.clone());
-            let mut evs = vec![json!({"ev":"reset","src":"replay","nbeh":behaviours,"variant":v,"tymap":tys,"xdyn":dyns.iter().map(|x| x.to_string()).collect::<Vec<_>>()})];
-            let mut ok = true;
-            runs += 1;
-            for st in &hist {
-                let ev = d.do_call(&st.call);
-                calls += 1;
-                *ops_seen.entry(st.call.op.clone()).or_default() += 1;
-                let same = ev["out"] == st.out
-                    && ev["obs"]["cells"] == st.cells
-                    && ev["obs"]["guards"] == st.guards
-                    && ev["obs"]["drops"] == st.drops;
-                evs.push(ev);
-                if !same {
-                    ok = false;
-                    if bad_samples.len() < 3 {
-                        bad_samples.push(json!({"call": evs.last().unwrap(), "expected": {"out": st.out, "cells": st.cells, "guards": st.guards, "drops": st.drops}}));
+            // execution context (the spec does not know it: outcomes must not depend on it):
+            // every other run on a rayon pool worker; a third of the &self calls from a
+            // destructor that runs while the thread unwinds
+            let pool = contexts && rng.gen_bool(0.5);
+            let useed: u64 = rng.gen();
+            let run = || {
+                let mut urng = StdRng::seed_from_u64(useed);
+                let mut d = Driver::new(tys.clone(), dyns.clone());
+                let mut evs = vec![json!({"ev":"reset","src":"replay","nbeh":behaviours,"variant":v,"tymap":tys,"xdyn":dyns.iter().map(|x| x.to_string()).collect::<Vec<_>>(),"pool":pool})];
+                let mut ok = true;
+                let mut bad = None;
+                for st in &hist {
+                    let ev = d.do_call_in(&st.call, contexts && urng.gen_bool(0.33));
+                    let same = ev["out"] == st.out
+                        && ev["obs"]["cells"] == st.cells
+                        && ev["obs"]["guards"] == st.guards
+                        && ev["obs"]["drops"] == st.drops;
+                    evs.push(ev);
+                    if !same {
+                        ok = false;
+                        bad = Some(json!({"call": evs.last().unwrap(), "expected": {"out": st.out, "cells": st.cells, "guards": st.guards, "drops": st.drops}}));
+                        break;
                     }
-                    break;
+                    if d.abort.is_some() {
+                        break;
+                    }
                 }
-                if d.abort.is_some() {
-                    break;
+                (evs, ok, bad)
+            };
+            let (evs, ok, bad) = if pool { on_pool(run) } else { run() };
+            runs += 1;
+            if pool {
+                pool_runs += 1;
+            }
+            for e in &evs[1..] {
+                calls += 1;
+                *ops_seen.entry(e["op"].as_str().unwrap().to_string()).or_default() += 1;
+                if e["unwinding"] == true {
+                    unwinding_calls += 1;
+                }
+            }
+            if let Some(b) = bad {
+                if bad_samples.len() < 3 {
+                    bad_samples.push(b);
                 }
             }
             if ok {
@@ -156,7 +180,7 @@ fn replay(a: &Args) {
     println!(
         "{}",
         json!({"behaviours":behaviours,"runs":runs,"calls":calls,"agree":agree,"disagree":disagree,"kept_agreeing":kept,
-               "blocks_written":blocks,"ops":ops_seen,"samples":samples,"disagree_samples":bad_samples})
+               "blocks_written":blocks,"runs_on_rayon_worker":pool_runs,"calls_issued_while_unwinding":unwinding_calls,"ops":ops_seen,"samples":samples,"disagree_samples":bad_samples})
     );
 }
 
@@ -250,38 +274,56 @@ fn random(a: &Args) {
     let mut w = BufWriter::new(File::create(out).unwrap());
     let mut ops = std::collections::BTreeMap::<String, usize>::new();
     let mut outcomes = std::collections::BTreeMap::<String, usize>::new();
-    let (mut calls, mut aborted) = (0usize, 0usize);
+    let (mut calls, mut aborted, mut pool_blocks, mut unwinding_calls) = (0usize, 0usize, 0usize, 0usize);
+    let contexts = !a.flag("plain");
     let mut samples = Vec::new();
     for b in 0..blocks {
         let (tys, dyns) = variant(&mut rng, nt, nd, b == 0);
-        let mut d = Driver::new(tys.clone(), dyns.clone());
-        let mut evs = vec![json!({"ev":"reset","src":"random","nblock":b,"tymap":tys,"xdyn":dyns.iter().map(|x| x.to_string()).collect::<Vec<_>>()})];
-        let mut mode = 0u8;
-        for _ in 0..len {
-            let c = rand_call(&mut rng, &d, &mut mode);
-            let mut c = c;
-            if c.op.starts_with("meta_iter") {
-                // the table's registration order is the abstract type order
-                c.shape = (1..=nt as u32).map(|t| ShapeM { k: if c.op == "meta_iter" { "optread".into() } else { "optwrite".into() }, t }).collect();
+        let pool = contexts && b % 2 == 1;
+        let bseed: u64 = rng.gen();
+        let run = || {
+            let mut rng = StdRng::seed_from_u64(bseed);
+            let mut d = Driver::new(tys.clone(), dyns.clone());
+            let mut evs = vec![json!({"ev":"reset","src":"random","nblock":b,"tymap":tys,"xdyn":dyns.iter().map(|x| x.to_string()).collect::<Vec<_>>(),"pool":pool})];
+            let mut mode = 0u8;
+            for _ in 0..len {
+                let mut c = rand_call(&mut rng, &d, &mut mode);
+                if c.op.starts_with("meta_iter") {
+                    // the table's registration order is the abstract type order
+                    c.shape = (1..=nt as u32).map(|t| ShapeM { k: if c.op == "meta_iter" { "optread".into() } else { "optwrite".into() }, t }).collect();
+                }
+                let ev = d.do_call_in(&c, contexts && rng.gen_bool(0.3));
+                evs.push(ev);
+                if let Some(why) = &d.abort {
+                    evs.push(json!({"ev":"abort","why":why}));
+                    break;
+                }
             }
-            let ev = d.do_call(&c);
+            evs
+        };
+        let evs = if pool { on_pool(run) } else { run() };
+        if pool {
+            pool_blocks += 1;
+        }
+        for ev in &evs[1..] {
+            if ev["ev"] == "abort" {
+                aborted += 1;
+                continue;
+            }
             calls += 1;
-            *ops.entry(c.op.clone()).or_default() += 1;
+            if ev["unwinding"] == true {
+                unwinding_calls += 1;
+            }
+            *ops.entry(ev["op"].as_str().unwrap().to_string()).or_default() += 1;
             *outcomes.entry(format!("{}{}{}", ev["out"]["k"].as_str().unwrap(), if ev["out"]["why"] == "" { "" } else { ":" }, ev["out"]["why"].as_str().unwrap())).or_default() += 1;
             if samples.len() < 6 && b == 0 {
-                samples.push(json!({"op": c.op, "targ": c.targ, "id": [ev["ty"], ev["dy"]], "out": ev["out"]["k"], "why": ev["out"]["why"]}));
-            }
-            evs.push(ev);
-            if let Some(why) = &d.abort {
-                evs.push(json!({"ev":"abort","why":why}));
-                aborted += 1;
-                break;
+                samples.push(json!({"op": ev["op"], "targ": ev["targ"], "id": [ev["ty"], ev["dy"]], "out": ev["out"]["k"], "why": ev["out"]["why"], "unwinding": ev["unwinding"]}));
             }
         }
         write_block(&mut w, &evs);
     }
     w.flush().unwrap();
-    println!("{}", json!({"blocks":blocks,"calls":calls,"aborted_blocks":aborted,"ops":ops,"outcomes":outcomes,"samples":samples}));
+    println!("{}", json!({"blocks":blocks,"calls":calls,"aborted_blocks":aborted,"blocks_on_rayon_worker":pool_blocks,"calls_issued_while_unwinding":unwinding_calls,"ops":ops,"outcomes":outcomes,"samples":samples}));
 }
 
 // ------------------------------------------------------------------ multi-thread histories
